@@ -166,3 +166,93 @@ def value_forms(ctx: Ctx, m: Func, v: Term) -> set:
 def values_agree(ctx: Ctx, m: Func, v: Term, candidates) -> bool:
     fv = value_forms(ctx, m, v)
     return any(fv & value_forms(ctx, m, c) for c in candidates)
+
+
+def conds_at(ctx: Ctx, f: Func, node: ast.AST, _cache: dict | None = None) -> dict:
+    """{atom: polarity} known to hold where `node` is evaluated: the enclosing `if` statements and conditional
+    expressions plus the path condition of its statement; a conjunction known true contributes each conjunct, a
+    disjunction known false the negation of each disjunct."""
+    from ..util import _enclosing_conds, _pc_literals, norm_cond, stmt_of
+
+    st = stmt_of(node)
+    items = list(_enclosing_conds(ctx, f, node))
+    if st is not None:
+        if _cache is not None and id(st) in _cache:
+            items += _cache[id(st)]
+        else:
+            try:
+                pcs = list(_pc_literals(ctx, f, st))
+            except AnalysisError:
+                pcs = []
+            if _cache is not None:
+                _cache[id(st)] = pcs
+            items += pcs
+    out: dict = {}
+
+    def put(a, p):
+        if a[0] == "bool" and a[1] == "and" and p:
+            for x in a[2]:
+                put(*norm_cond(x))
+        elif a[0] == "bool" and a[1] == "or" and not p:
+            for x in a[2]:
+                a2, p2 = norm_cond(x)
+                put(a2, not p2)
+        else:
+            out.setdefault(a, p)
+
+    for a, p in items:
+        put(a, p)
+    return out
+
+
+def none_contradictions(ctx: Ctx, res, f: Func, what: str) -> int:
+    """Contradiction rule (Engler et al.): a value is never dereferenced (attribute, subscript), compared with `==`,
+    used in arithmetic or used as an array index at a place where the conditions in force say it is None.  One
+    obligation per function; every offending use is reported.  Returns the number of uses examined."""
+    from ..util import norm_cond
+
+    X = ctx.X
+    cache: dict = {}
+    n_uses = 0
+    bad = []
+
+    def known_none(use: ast.AST, at: ast.AST) -> bool:
+        nonlocal n_uses
+        if not isinstance(use, (ast.Name, ast.Attribute)):
+            return False
+        cs = conds_at(ctx, f, at, cache)
+        if not cs:
+            return False
+        n_uses += 1
+        try:
+            t = X.at(f, use)
+        except Exception:  # noqa: BLE001
+            return False
+        atom, pol = norm_cond(("cmp", "is", t, ("const", None)))
+        return cs.get(atom) is pol
+
+    for node in ast.walk(f.node):
+        uses = []
+        if isinstance(node, ast.Attribute) and isinstance(node.ctx, ast.Load):
+            uses.append((node.value, "attribute `." + node.attr + "` of"))
+        elif isinstance(node, ast.Subscript):
+            uses.append((node.value, "subscript of"))
+            idx = node.slice.elts if isinstance(node.slice, ast.Tuple) else [node.slice]
+            for e in idx:
+                uses.append((e, "array index"))
+        elif isinstance(node, ast.Compare) and len(node.ops) == 1 and isinstance(node.ops[0], (ast.Eq, ast.NotEq, ast.Lt, ast.LtE, ast.Gt, ast.GtE)):
+            uses.append((node.left, "comparison operand"))
+            uses.append((node.comparators[0], "comparison operand"))
+        elif isinstance(node, ast.BinOp):
+            uses.append((node.left, "arithmetic operand"))
+            uses.append((node.right, "arithmetic operand"))
+        for use, how in uses:
+            if known_none(use, node):
+                bad.append((node, f"{how} `{ast.unparse(use)}`"))
+    ok = not bad
+    first = bad[0][0] if bad else f.node
+    res.add(f, first, f"{what}: no value is used (dereferenced, compared, indexed with) where the conditions in force say it is None", ok,
+            "" if ok else "; ".join(f"line {n.lineno}: {h} is evaluated where it is known to be None" for n, h in bad[:4])
+            + ": the branches of a None test are swapped (the configured / filtered alternative is never taken, or the code raises)",
+            construct=f"{f.name}: None-test polarity")
+    return n_uses
